@@ -1005,3 +1005,54 @@ func ruleXCH4(c *Ctx) {
 	})
 	c.check(conv, "XCH.4/set-converts", set, "the value is converted with FromInterface", "Compiled.Set does not convert the host value with FromInterface")
 }
+
+// ---------------------------------------------------------------- SYM.2 (C11, C15)
+
+// SYM.2: NewCompiler defines the builtin functions in the very symbol table
+// the caller passes in - the one that holds the host's variables
+// (Script.prepCompile) and will hold the program's globals. A name defined
+// there by the host is overwritten by the builtin of the same name, and a
+// top-level `len := …` is a redeclaration although the same statement in a
+// function body or block shadows the builtin. The rule holds when builtins
+// are defined in a scope of their own (a parent of the globals' scope) or
+// when DefineBuiltin never replaces an existing entry.
+func ruleSYM2(c *Ctx) {
+	w := c.W
+	p := w.Root
+	nc := w.FuncDecl(p, "NewCompiler")
+	db := w.FuncDecl(p, "SymbolTable.DefineBuiltin")
+	if nc == nil || db == nil {
+		c.anchor("NewCompiler / SymbolTable.DefineBuiltin")
+		return
+	}
+	// which parameter of NewCompiler is the symbol table?
+	var stParam types.Object
+	for _, f := range nc.Type.Params.List {
+		for _, nm := range f.Names {
+			if tn, _ := namedName(p.TypesInfo.Defs[nm].Type()); tn == "SymbolTable" {
+				stParam = p.TypesInfo.Defs[nm]
+			}
+		}
+	}
+	onCallerTable := containsNode(nc.Body, func(nd ast.Node) bool {
+		call, ok := nd.(*ast.CallExpr)
+		if !ok || !isMethodOf(Callee(p, call), p.Types, "SymbolTable", "DefineBuiltin") {
+			return false
+		}
+		se, _ := call.Fun.(*ast.SelectorExpr)
+		if se == nil {
+			return false
+		}
+		id, ok := ast.Unparen(se.X).(*ast.Ident)
+		return ok && p.TypesInfo.Uses[id] == stParam
+	})
+	// does DefineBuiltin keep an existing entry?
+	keeps := containsNode(db.Body, func(nd ast.Node) bool {
+		is, ok := nd.(*ast.IfStmt)
+		if !ok {
+			return false
+		}
+		return strings.Contains(w.Src(is), ".store[") && containsNode(is.Body, func(m ast.Node) bool { _, ok := m.(*ast.ReturnStmt); return ok }) && strings.Contains(w.Src(is.Cond)+w.Src(is.Init), "ok")
+	})
+	c.check(!onCallerTable || keeps, "builtin-scope/shared-with-globals", nc, "builtins live in a scope of their own", "NewCompiler defines the builtin functions in the caller's symbol table, replacing entries of the same name: a host variable added as \"len\" disappears (IsDefined false, Set fails, the script sees the builtin), and `len := 3` is a redeclaration at top level but shadows the builtin inside a function or block")
+}
